@@ -456,14 +456,14 @@ linux_ver_revalidate(kdump_ctx_t *ctx, struct attr_data *attr)
 
 	p = attr_value(rel)->string;
 	a = strtoul(p, &endp, 10);
-	if (endp == p || *endp != '.')
+	if (endp == p || (*endp && *endp != '.'))
 		goto err;
 
 	b = c = 0L;
 	if (*endp) {
 		p = endp + 1;
 		b = strtoul(p, &endp, 10);
-		if (endp == p || *endp != '.')
+		if (endp == p || (*endp && *endp != '.'))
 			goto err;
 
 		if (*endp) {
